@@ -64,8 +64,10 @@ def solid_facts(s):
             _cache.clear()
         tris = geom.faces_to_tris(V, faces)
         vol, cen, _ = geom.solid_exact(tris)
+        nrm = np.cross(tris[:, 1] - tris[:, 0], tris[:, 2] - tris[:, 0])
+        nrm = nrm / np.linalg.norm(nrm, axis=1)[:, None]
         _cache[key] = {"tris": tris, "V": vol, "c": cen, "L": float(np.linalg.norm(V, axis=1).max()), "ft": {},
-                       "d": gen.diameter(V)}
+                       "d": gen.diameter(V), "normals": nrm}
     return _cache[key]
 
 
@@ -106,8 +108,16 @@ def setup(rec, tier):
                 mech = "Polyhedron.form_factor/density-ignored"
             elif not np.any(qq):
                 mech += "/q=0"
-            rec.close("Polyhedron.form_factor", complex(res[j]), complex(want), tol_of(F["V"] * max(1.0, abs(rho)), qq, F["L"], F["d"] * max(1.0, abs(rho)) ** (1 / 3)), mech,
-                      lambda: wit(q=qq))
+            tol = tol_of(F["V"] * max(1.0, abs(rho)), qq, F["L"], F["d"] * max(1.0, abs(rho)) ** (1 / 3))
+            # conditioning of the face most nearly perpendicular to q: its boundary integral has terms of size
+            # d/|q_par| and is divided by |q| again in the polyhedron sum
+            qn = float(np.linalg.norm(qq))
+            if qn > 0:
+                qpar = np.linalg.norm(qq[None, :] - (F["normals"] @ qq)[:, None] * F["normals"], axis=1)
+                qpar = qpar[qpar * F["d"] > 1e-7]
+                if len(qpar):
+                    tol += 100 * 2.2e-16 * max(1.0, abs(rho)) * F["d"] ** 3 / ((qpar.min() * F["d"]) * (qn * F["d"]))
+            rec.close("Polyhedron.form_factor", complex(res[j]), complex(want), tol, mech, lambda: wit(q=qq))
 
     def polygon_post(s, a, k, res, tok):
         q = q_of(a, k)
